@@ -190,7 +190,8 @@ DIMENSIONS = {
 STATE_CLASSES = {
     "State": "fixed: abstract base",
     "InitialState": "varied: initial state of every static / dynamic obstacle; trajectory state [state/InitialState]",
-    "PMState": "varied: trajectory state, heading atan2(vy, vx) in every quadrant, zero velocity [state/PMState]",
+    "PMState": "varied: trajectory state, heading atan2(vy, vx) in every quadrant; magnitude of (vx, vy) zero / ordinary / slow down "
+               "to 1e-300 / subnormal / 1e20..1e200 / one slow component [state/PMState, dim/pm-speed-*]",
     "ExtendedPMState": "varied: trajectory state (has an orientation, which wins over its derived velocity_y) [state/ExtendedPMState]",
     "KSState": "varied: trajectory state; uncertain position / orientation [state/KSState]",
     "KSTState": "varied: trajectory state with hitch_angle [state/KSTState]",
